@@ -118,6 +118,9 @@ func c04Sched(c *fw.Ctx) {
 		for _, d := range x.Stats.Diverged {
 			c.HarnessError("C04 sched: %s", d)
 		}
+		if x.Stats.WarmStart {
+			c.Count("warm_start_scenarios", 1)
+		}
 		if x.Stats.Nondeterministic {
 			c.HarnessError("C04 sched: replaying the default schedule gave a different execution")
 		}
